@@ -1,0 +1,53 @@
+//go:build verif
+
+package geom
+
+// Contracts for Boundary / PointOnSurface (C15): boundaries of points are
+// empty, a line's boundary is its two end points unless it is closed, a
+// polygon's boundary has one 2D line per ring; the nearest-point accumulator
+// only ever holds a candidate it was shown.
+
+//@ prop C15,C16,C20,C10
+
+//@ pred FirstX(s) = s.floats[0]
+//@ pred FirstY(s) = s.floats[1]
+//@ pred LastX(s) = s.floats[(NPts(s) - 1) * Dim(s.ctype)]
+//@ pred LastY(s) = s.floats[(NPts(s) - 1) * Dim(s.ctype) + 1]
+//@ pred SeqClosed(s) = NPts(s) > 0 && FirstX(s) == LastX(s) && FirstY(s) == LastY(s)
+
+//@ func Point.Boundary
+//@   ensures len(result.geoms) == 0
+//@ func MultiPoint.Boundary
+//@   ensures len(result.geoms) == 0
+
+//@ func LineString.IsClosed
+//@   ensures result <==> SeqClosed(s.seq)
+
+//@ func LineString.StartPoint
+//@   ensures result.coords.Type == s.seq.ctype && (result.full <==> NPts(s.seq) > 0)
+//@   ensures result.full ==> same(result.coords.XY.X, FirstX(s.seq)) && same(result.coords.XY.Y, FirstY(s.seq))
+//@ func LineString.EndPoint
+//@   ensures result.coords.Type == s.seq.ctype && (result.full <==> NPts(s.seq) > 0)
+//@   ensures result.full ==> same(result.coords.XY.X, LastX(s.seq)) && same(result.coords.XY.Y, LastY(s.seq))
+
+// the boundary of a line: nothing when empty or closed, else exactly its two end points
+//@ func LineString.Boundary
+//@   ensures NPts(s.seq) == 0 || SeqClosed(s.seq) ==> len(result.points) == 0
+//@   ensures NPts(s.seq) > 0 && !SeqClosed(s.seq) ==> len(result.points) == 2 && result.points[0].full && result.points[1].full
+//@   ensures NPts(s.seq) > 0 && !SeqClosed(s.seq) ==> same(result.points[0].coords.XY.X, FirstX(s.seq)) && same(result.points[0].coords.XY.Y, FirstY(s.seq)) && same(result.points[1].coords.XY.X, LastX(s.seq)) && same(result.points[1].coords.XY.Y, LastY(s.seq))
+
+// the boundary of a polygon: one 2D line per ring, with as many vertices
+//@ func Polygon.Boundary
+//@   ensures len(result.lines) == len(p.rings) && result.ctype == 0
+
+// the accumulator ends up holding either what it held or the candidate
+//@ func (*nearestPointAccumulator).consider
+//@   modifies n
+//@   ensures same(n.target, old(n.target))
+//@   ensures same(n.point, old(n.point)) || (same(n.point, candidate) && candidate.full && n.target.full)
+//@   ensures old(n.point.full) ==> n.point.full
+//@   ensures n.target.full && candidate.full ==> n.point.full
+//@   ensures old(n.target.full) && candidate.full && !old(n.point.full) ==> same(n.point, candidate)
+
+//@ func Point.PointOnSurface
+//@   ensures result.full == p.full && result.coords.Type == 0 && (p.full ==> same(result.coords.XY, p.coords.XY))
